@@ -64,6 +64,7 @@ site('MatlabWrapper.wrap_global_function',
 site('MatlabWrapper.wrap_class_constructors',
      params={'namespace_name': 'str', 'inst_class': 'ref:InstantiatedClass', 'parent_name': 'estr|ref:Typename',
              'ctors': 'list[ref:Constructor]', 'is_virtual': 'str'},
+     extra_mod=['heap:backup'],      # _group_methods keeps the unexpanded argument lists in ArgumentList.backup
      loops={0: LOOP},
      holes=[dict(match=r'my_ptr = \{wrapper_name\}\(\{id\}', key='id', count='siteCount',
                  set={'siteRole': "('upcast', inst_class, None, '', True)"}),
@@ -91,12 +92,13 @@ site('MatlabWrapper.wrap_class_methods',
      requires=['len(serialize) >= 1'],
      loops={0: dict(LOOP, inv=LOOP['inv'] + ['len(serialize) >= 1', 'len(old(serialize)) == old(len(serialize))'], modifies=LOOP_MOD + ['list(serialize)']),
             1: dict(LOOP, inv=LOOP['inv'] + ['len(serialize) >= 1', 'len(old(serialize)) == old(len(serialize))'], defines={'class_name': 'str'})},
-     extra_mod=['list(serialize)'], extra_ens=['len(old(serialize)) == old(len(serialize))'],
+     extra_mod=['list(serialize)', 'heap:backup'], extra_ens=['len(old(serialize)) == old(len(serialize))'],
      holes=[dict(match=r'\{varargout\}\{wrapper\}\(\{num\}, this, varargin', key='num', count='siteCount',
                  set={'siteRole': "(overload.original.name, inst_class, overload, namespace_name + inst_class.name + '_' + overload.original.name, False)"})])
 
 site('MatlabWrapper.wrap_static_methods',
      params={'namespace_name': 'str', 'instantiated_class': 'ref:InstantiatedClass', 'serialize': 'bool'},
+     extra_mod=['heap:backup'],
      loops={0: LOOP, 1: dict(LOOP, defines={'static_overload': 'ref:StaticMethod'})},
      holes=[dict(match=r'STRING_DESERIALIZE usage', key='id', count='siteCount',
                  set={'siteRole': "('string_deserialize', instantiated_class, 'deserialize', namespace_name + instantiated_class.name + '_string_deserialize', False)"}),
